@@ -58,6 +58,8 @@ pub enum Cmd {
     WaitLast,
     WaitVar(u8),
     WaitUnknown,
+    /// `wait` with several operands: 0 = `$!`, 1 = an unknown pid, 2+k = `$x<k>`
+    WaitMany(Vec<u8>),
     /// `x=$(CMD)` : command substitution as an assignment-only simple command
     Subst(Box<Cmd>),
     SetE(bool),
@@ -508,6 +510,10 @@ impl Printer {
             Cmd::WaitLast => "wait $!".into(),
             Cmd::WaitVar(i) => format!("wait $x{i}"),
             Cmd::WaitUnknown => "wait 9999".into(),
+            Cmd::WaitMany(ops) => format!(
+                "wait{}",
+                ops.iter().map(|o| match o { 0 => " $!".to_string(), 1 => " 9999".to_string(), k => format!(" $x{}", k - 2) }).collect::<String>()
+            ),
             Cmd::Subst(x) => {
                 let inner = self.list(x);
                 format!("y=$({inner})")
@@ -951,6 +957,24 @@ impl Eval {
             }
             Cmd::WaitUnknown => {
                 st.status = 127;
+                self.errexit(st)
+            }
+            Cmd::WaitMany(ops) => {
+                // every operand is waited for; the status is that of the last one
+                for o in ops {
+                    let target = match o {
+                        0 => st.lastbg.clone(),
+                        1 => None,
+                        k => st.saved.get(&(k - 2)).cloned(),
+                    };
+                    if *o != 1 && target.is_none() {
+                        return Err(Divert::Unspecified("wait for unset $!"));
+                    }
+                    st.status = match target.and_then(|t| st.jobs.iter().position(|(n, _)| *n == t)) {
+                        Some(i) => st.jobs.remove(i).1,
+                        None => 127,
+                    };
+                }
                 self.errexit(st)
             }
             Cmd::Subst(x) => {
